@@ -108,7 +108,7 @@ Definition ufun_code (u : ufun) : Z :=
 (* ---------- program / configuration ---------- *)
 Record stepcfg := mkStep { sc_status : Z; sc_beh : beh; sc_dests : list Z; sc_par : Z; sc_pause : Z; sc_lag : Z }.
 Record cbcfg := mkCb { cb_status : Z; cb_beh : beh; cb_dests : list Z }.
-Record tocfg := mkTo { to_status : Z; to_dur : Z (* < 0: timer function returns the zero time *); to_beh : beh; to_dests : list Z; to_pause : Z }.
+Record tocfg := mkTo { to_status : Z; to_dur : Z (* -2: the timer function FAILS (error 15 with the zero time); other values < 0: it returns the zero time *); to_beh : beh; to_dests : list Z; to_pause : Z }.
 
 (* a schedule: cron specification [sd_spec] (index into the periodic family below), initial value, and a schedule filter
    answering false on its first [sd_filter] invocations (0 = no filter configured) *)
